@@ -201,12 +201,14 @@ fn classify(sc: &Scenario, msg: &str) -> Verdict {
     }
     if msg.contains("Causality violation") || msg.contains("currently writing to cell") || msg.contains("currently reading from cell") {
         let m = format!("loom: unsynchronized access to the instrumented cell — {}", msg.replace('\n', " "));
-        let (p, r) = match sc.body {
-            Body::Chan(_) => ("C01", "unsynchronized_payload"),
-            Body::Bcast(_) => ("C07", "unsynchronized_payload"),
-            Body::Lock(_) => ("C10", "mutual_exclusion"),
+        // an unordered access to a payload / slot cell means a value can be read torn, twice or not at all and
+        // dropped twice: it counts against delivery (C01), order (C02) and drop accounting (C09) alike
+        let list: Vec<(&str, &str)> = match sc.body {
+            Body::Chan(_) => vec![("C01", "unsynchronized_payload"), ("C02", "unsynchronized_payload"), ("C09", "unsynchronized_payload")],
+            Body::Bcast(_) => vec![("C07", "unsynchronized_payload"), ("C09", "unsynchronized_payload")],
+            Body::Lock(_) => vec![("C10", "mutual_exclusion")],
         };
-        return Verdict::Violation(vec![(p.to_string(), r.to_string(), m)]);
+        return Verdict::Violation(list.into_iter().map(|(p, r)| (p.to_string(), r.to_string(), m.clone())).collect());
     }
     if msg.contains("[loom internal bug]") || msg.contains("Is the model fully deterministic") || msg.contains("cannot access Loom execution state") {
         return Verdict::Capped(format!("loom machinery: {}", first));
